@@ -2,7 +2,7 @@
     and C08 are stated for files and runs of any length, so they already cover transfers
     beyond 65535 blocks; this file pins what is specific to the 16-bit counter. *)
 From Tftp Require Import Base.Prelude Model.Types Model.Consts Model.Codec Model.Window Model.Worker Model.Spec
-  Proofs.CodecP Proofs.SpecP Proofs.WindowP Proofs.SendP Proofs.RecvP.
+  Proofs.CodecP Proofs.SpecP Proofs.WindowP Proofs.SendP Proofs.RecvP Model.Net Proofs.CosimLive.
 Local Open Scope N_scope.
 
 (** Sender: in every reachable state of every run (any length) the 16-bit block number is
@@ -67,6 +67,26 @@ Example C15_ex_straddle :
   /\ wsub16 (65536 mod 65536) (65535 mod 65536) = 65536 - 65535.
 Proof. repeat split; vm_compute; reflexivity. Qed.
 
+(** Closed system, any length: a sending and a receiving worker joined by FIFO channels complete
+    with exactly the file however often the 16-bit block number wraps (no bound on the number
+    of blocks anywhere in the statement or its proof) - and still do when one DATA datagram is
+    lost at any position, in particular in the window that contains blocks 65535 / 65536. *)
+Theorem C15_transfer_completes_across_wraps : forall sc rc F,
+  wf_params (s_blk sc) (s_ws sc) -> r_blk rc = s_blk sc -> r_ws rc = s_ws sc -> s_check sc = false ->
+  s_fails sc = [] -> r_fails rc = [] -> s_rep sc = 1 -> r_rep rc = 1 -> 0 < s_tmo sc ->
+  exists fuel, let p := pair_run sc rc [] [] fuel (pair_init sc rc [] F) in
+    r_phase (p_r p) = RDone OutOk /\ written_bytes (w_file (r_w (p_r p))) = F /\ s_phase (p_s p) = SDone OutOk.
+Proof. exact cosim_perfect. Qed.
+Theorem C15_loss_at_any_block_number_recovers : forall sc rc F,
+  wf_params (s_blk sc) (s_ws sc) -> r_blk rc = s_blk sc -> r_ws rc = s_ws sc -> s_check sc = false ->
+  s_fails sc = [] -> r_fails rc = [] -> s_rep sc = 1 -> r_rep rc = 1 -> 0 < s_tmo sc ->
+  forall i, exists fuel,
+    let p := pair_run sc rc [(i, NfDrop)] [] fuel (pair_init sc rc [(i, NfDrop)] F) in
+    r_phase (p_r p) = RDone OutOk /\ written_bytes (w_file (r_w (p_r p))) = F /\ s_phase (p_s p) = SDone OutOk.
+Proof. exact cosim_data_drop. Qed.
+
+Print Assumptions C15_transfer_completes_across_wraps.
+Print Assumptions C15_loss_at_any_block_number_recovers.
 Print Assumptions C15_send_bn_tracks_abs.
 Print Assumptions C15_recv_bn_tracks_count.
 Print Assumptions C15_ack_attribution_unique.
